@@ -239,13 +239,21 @@ def check_registry(case):
         def submit_orders(self, markets):
             return []
 
+    class H1(HighFrequencyAgent):
+        def submit_orders(self, markets):
+            return []
+
+    class H2(H1):
+        pass
+
     for pos, (i, n, g) in enumerate(case["seq"]):
         if pos in case["same_object"]:
             x = made[[tuple(e) for e in case["seq"]].index((i, n, g))]
         elif kind == "market":
             x = Market(market_id=i, prng=random.Random(1), simulator=sim, name=n, logger=None)
         elif kind == "agent":
-            x = A(agent_id=i, prng=random.Random(1), simulator=sim, name=n, logger=None)
+            # normal agent, direct subclass of HighFrequencyAgent, subclass of such a subclass: by position in the sequence
+            x = (A, H1, H2)[(pos + i) % 3](agent_id=i, prng=random.Random(1), simulator=sim, name=n, logger=None)
         else:
             x = Session(session_id=i, prng=random.Random(1), session_start_time=0, simulator=sim, name=n, logger=None)
         made.append(x)
@@ -268,6 +276,12 @@ def check_registry(case):
                                     "session": (sim.sessions, sim.id2session, sim.name2session, sim.n_sessions)}[kind]
         if len(lst) != len(objs) or any(a is not b for a, b in zip(lst, objs)) or cnt != len(objs):
             return f"registry list of {kind}s is not the accepted registrations in order after registration {pos}"
+        if kind == "agent":
+            hf = [o for o in objs if isinstance(o, HighFrequencyAgent)]; nf = [o for o in objs if not isinstance(o, HighFrequencyAgent)]
+            if len(sim.high_frequency_agents) != len(hf) or any(a is not b for a, b in zip(sim.high_frequency_agents, hf)) \
+                    or len(sim.normal_frequency_agents) != len(nf) or any(a is not b for a, b in zip(sim.normal_frequency_agents, nf)):
+                return (f"consultation pools after registration {pos}: high-frequency {[type(o).__name__ for o in sim.high_frequency_agents]}, normal "
+                        f"{[type(o).__name__ for o in sim.normal_frequency_agents]}; registered {[type(o).__name__ for o in objs]} (H1, H2 are HighFrequencyAgents)")
         if set(by_id) != ok_ids or set(by_name) != ok_names or any(by_id[_id(o, kind)] is not o or by_name[o.name] is not o for o in objs):
             return f"id / name lookup of {kind}s disagrees with the registry list after registration {pos}"
     return None
